@@ -424,6 +424,7 @@ class Structural:
             self.itp.store_hook(arr)
         arr.store(None, lambda i: N(s(T.to_int_term(i))))
         arr.meta['sorted'] = (s, fwd, bwd)
+        c.cache.setdefault('sort-calls', []).append(dict(s=s, fwd=fwd, bwd=bwd, n=n))
         return None
 
     # --------------------------------------------------------------------------------- interpolation
